@@ -66,7 +66,7 @@ func boolOut(o Outcome) string {
 }
 
 func runC06(c *Ctx) {
-	c.meta.Rule = "exhaustive: 4 operators x every ordered pair of operand forms (5 value classes x 5 sources), plus not(), where/exists/all/iif criteria and EvaluateAsBool on each form; a case is non-trivial when at least one operand is non-empty; distinct by (op, abstracted operands)"
+	c.meta.Rule = "exhaustive: 4 operators x every ordered pair of operand forms (5 value classes x 5 sources; the non-Boolean single items include 'false', 'no', 0, 0.0 and elements without a System value), plus not(), where/exists/all/iif criteria and EvaluateAsBool on each form; a case is non-trivial when at least one operand is non-empty; distinct by (op, abstracted operands)"
 	c.meta.Exhaustive = true
 	patient := mustResource(`{"resourceType":"Patient","id":"p1","active":true,"deceasedBoolean":false,
 	  "name":[{"family":"A","given":["x","y"]},{"family":"B"}],
@@ -86,6 +86,11 @@ func runC06(c *Ctx) {
 		evalopts.EnvVariable("vff", fhir.Boolean(false)),
 		evalopts.EnvVariable("vfm", system.Collection{fhir.Boolean(false), fhir.Boolean(true)}),
 		evalopts.EnvVariable("pf", patientF),
+		// single items that are not Booleans: some look like one, some have no System value at all
+		evalopts.EnvVariable("vq", &dtpb.Quantity{Unit: fhir.String("mg")}),
+		evalopts.EnvVariable("vd", &dtpb.Decimal{Value: ""}),
+		evalopts.EnvVariable("vfs", fhir.String("false")),
+		evalopts.EnvVariable("vi0", fhir.Integer(0)),
 	}
 	forms := []operand{
 		// literals
@@ -103,6 +108,9 @@ func runC06(c *Ctx) {
 		{"Patient.name.exists()", "true", "function"}, {"Patient.name.empty()", "false", "function"}, {"Patient.name.where(false)", "empty", "function"},
 		{"Patient.name.count()", "other", "function"}, {"Patient.name.select(family.exists())", "multi", "function"},
 		{"true.not()", "false", "function"}, {"Patient.active.not()", "false", "function"},
+		// a single non-Boolean item is true in a Boolean context, whatever it looks like
+		{"'false'", "other", "literal"}, {"'true'", "other", "literal"}, {"0", "other", "literal"}, {"0.0", "other", "literal"}, {"'no'", "other", "literal"}, {"'F'", "other", "literal"},
+		{"%vq", "other", "variable"}, {"%vd", "other", "variable"}, {"%vfs", "other", "variable"}, {"%vi0", "other", "variable"}, {"(1 - 1)", "other", "computed"},
 	}
 	eval := func(src string) Outcome { return compileEval(src, input, envs...) }
 	abs := make([]string, len(forms))
